@@ -143,13 +143,13 @@ class RelCheck:
         """program == reference.  `ref` / `ref_concrete` override the reference (C15: base rows intersected)."""
         p = self.progs[backend]
         st = p["status"]
-        if st in ("refused", "crash", "parser_rejected"):
-            self.emit("accept", backend, st, why=p["why"])
-            return
         hit = regions.static_hit(self.active, {"term": self.term, "features": self.feats, "backend": backend,
                                                "sql": p.get("sql", ""), "ob": ob})
+        if st in ("refused", "parser_rejected") or (st == "crash" and not hit):
+            self.emit("accept", backend, st, why=p["why"])
+            return
         if hit:
-            self.emit(ob, backend, "known", known_id=hit)
+            self.emit(ob, backend, "known", known_id=hit, detail=p.get("why") if st == "crash" else None)
             return
         if st in ("illformed", "nofunc"):
             kind, got = orm.replay(backend, G.to_text(G.replace_ints(self.term, {s: 1 for s in self.sent})), {}, self.model, self.base)
@@ -169,26 +169,23 @@ class RelCheck:
         except V.Unmodelled as e:
             self.emit(ob, backend, "outside", why=f"reference: {e}")
             return
-        s = self.solver(p["side"] + rside)
-        s.add(regions.dynamic_constraints(self.active, {"likes": p["likes"], "coalesced": p["coalesced"]}))
-        s.push()
-        s.add(z3.Or([p["keeps"][i] != rkeeps[i] for i in rkeeps]))
-        t0 = time.time()
-        r = s.check()
-        dt = round(time.time() - t0, 4)
-        if r == z3.unknown:
-            self.emit(ob, backend, "inconclusive", solver_s=dt, why=f"z3: {s.reason_unknown()}")
+        rmap = regions.dynamic_map(self.active, {"likes": p["likes"], "coalesced": p["coalesced"]})
+        res = regions.solve_with_regions(lambda: self.solver(p["side"] + rside),
+                                         z3.Or([p["keeps"][i] != rkeeps[i] for i in rkeeps]), rmap)
+        dt = res["solver_s"]
+        if res["status"] == "unknown":
+            self.emit(ob, backend, "inconclusive", solver_s=dt, why=res["why"])
             return
-        if r == z3.unsat:
-            s.pop()
-            r2 = s.check()
-            if r2 == z3.unsat:
-                self.emit(ob, backend, "outside", solver_s=dt, why="vacuous: the assumptions exclude every database")
-            elif r2 != z3.sat:
-                self.emit(ob, backend, "inconclusive", solver_s=dt, why=f"vacuity check: z3 {r2}")
-            else:
-                self.emit(ob, backend, "discharged", solver_s=dt)
+        if res["status"] == "vacuous":
+            self.emit(ob, backend, "outside", solver_s=dt, why="vacuous: the assumptions exclude every database")
             return
+        if res["status"] == "known":
+            self.emit(ob, backend, "known", solver_s=dt, known_id=res["known_id"])
+            return
+        if res["status"] == "unsat":
+            self.emit(ob, backend, "discharged", solver_s=dt)
+            return
+        s = res["solver"]
         m = orm._shrink(s, db_prefs(self.db, self.consts))
         content, cterm, ctext = self.concretise(m)
         w = {"filter": ctext, "term": cterm, "backend": backend, "model": self.model, "base": self.base, "rows": content,
@@ -324,6 +321,10 @@ def replay_rel_witness(w: dict) -> Tuple[bool, str]:
             return True, f"{text!r}: {backend} -> {r1[1]}, {b2} -> {r2[1]} on {rows}"
         return False, f"{backend} and {b2} now agree on {text!r}"
     st, payload = orm.build(backend, text, model, base)
+    if w.get("expect_crash"):
+        if st == "crash" and w["expect_crash"] in str(payload):
+            return True, f"{backend} {text!r} raises {str(payload)[:140]}"
+        return False, f"{backend} {text!r} is now {st} ({str(payload)[:80]})"
     if st != "ok":
         return False, f"{backend}: filter {text!r} is now {st}"
     try:
